@@ -394,6 +394,8 @@ func runC04(c *Ctx) {
 
 	// C04.4
 	ruleAssignToken(c, "C04.4")
+	// C04.11 generated loops over done-channels use the element as its type permits
+	ruleRangeChannelDirection(c, "C04.11")
 
 	// C04.10 user identifiers reach the allocator (shared with C12): otherwise a generated local can shadow a user name
 	{
